@@ -55,8 +55,8 @@ def gen_include_case(rng, cid, symlinks=False):
         files.append({"path": p, "nodes": nodes})
     inc_pool = [d for d in dirs if d != "."] + ([links[0][0]] if links else [])
     incdirs = rng.sample(inc_pool, rng.randint(0, len(inc_pool)))
-    if rng.random() < 0.2:
-        incdirs.append(".")
+    if rng.random() < 0.3:
+        incdirs.insert(rng.randint(0, len(incdirs)), ".")     # the main directory listed explicitly, anywhere
     spell = []
     for d in incdirs:
         r = rng.random()
